@@ -62,7 +62,12 @@ class Whitening(TransformerMixin, BaseEstimator):
         cov = numerical_module.cov(numerical_module.transpose(X))
 
         # 2. Computes the inverse of the covariance matrix
-        inv_cov = pinv(cov) if self.pinv else inv(cov)
+        if self.pinv:
+            # scipy's pinv returns a NumPy array, also for Dask input: hand it back
+            # to the numerical module in use so that its cholesky accepts it
+            inv_cov = numerical_module.asarray(pinv(cov))
+        else:
+            inv_cov = inv(cov)
 
         # 3. Computes the Cholesky decomposition of the inverse covariance matrix
         self.weights = cholesky(
